@@ -22,8 +22,8 @@ fn main() {
 /// Replace the update function of the given `variable` with a flattened version using only
 /// zero arity parameters.
 fn flatten_update_function(network: &mut BooleanNetwork, variable: VariableId) {
-    if network.regulators(variable).is_empty() {
-        // Skip zero-regulator variables.
+    if network.regulators(variable).is_empty() && network.get_update_function(variable).is_none() {
+        // Skip zero-regulator variables without update function (they stay free inputs).
         return;
     }
 
@@ -51,7 +51,12 @@ fn flatten_fn_update(network: &mut BooleanNetwork, update: &FnUpdate) -> FnUpdat
         FnUpdate::Not(update) => flatten_fn_update(network, update).negation(),
         FnUpdate::Param(id, args) => {
             let name = network.get_parameter(*id).get_name().clone();
-            explode_function(network, args, format!("{name}_"))
+            // the arguments may contain uninterpreted functions as well
+            let args = args
+                .iter()
+                .map(|arg| flatten_fn_update(network, arg))
+                .collect::<Vec<_>>();
+            explode_function(network, &args, format!("{name}_"))
         }
         FnUpdate::Binary(op, left, right) => FnUpdate::Binary(
             *op,
